@@ -33,21 +33,37 @@ type Spellings struct {
 	N     int    `json:"n"`
 	Per   int    `json:"per"`
 	Salt  uint64 `json:"salt"`
+	// run: the number of the oracle's execution within the process, mixed into every spelling. "New to the
+	// process" has to hold when a case is executed a second time by the same process too (shrinking starts
+	// with that); the verdict on a parser without memory does not depend on it. Not part of the case.
+	run uint64
 }
 
+// executions of oracleAgain in this process
+var againRuns uint64
+
 func saltWord(salt uint64) string { return strconv.FormatUint(salt%(1<<40), 36) }
+
+// salt of the spellings: the case's own, changed by the execution number (unchanged in the first execution
+// of a process, which is the one a replay makes)
+func (s Spellings) salt() uint64 {
+	if s.run == 0 {
+		return s.Salt
+	}
+	return s.Salt ^ mix64(s.run)<<3
+}
 
 // spelling k of a description, by token class.
 func (s Spellings) name(k int) string {
 	switch (s.Salt >> 41) % 4 {
 	case 0:
-		return "n" + saltWord(s.Salt) + "_" + strconv.Itoa(k)
+		return "n" + saltWord(s.salt()) + "_" + strconv.Itoa(k)
 	case 1:
-		return "V" + strconv.Itoa(k) + saltWord(s.Salt)
+		return "V" + strconv.Itoa(k) + "_" + saltWord(s.salt())
 	case 2:
-		return "_" + saltWord(s.Salt) + strconv.FormatInt(int64(k), 36)
+		return "_" + saltWord(s.salt()) + "_" + strconv.FormatInt(int64(k), 36)
 	default:
-		return "é" + strconv.Itoa(k) + "日" + saltWord(s.Salt)
+		return "é" + strconv.Itoa(k) + "日" + saltWord(s.salt())
 	}
 }
 
@@ -67,11 +83,11 @@ func numberSpelling(base uint64, k int) string {
 	}
 }
 
-func (s Spellings) number(k int) string { return numberSpelling(s.Salt, k) }
+func (s Spellings) number(k int) string { return numberSpelling(s.salt(), k) }
 
 func (s Spellings) str(k int) string {
 	q := []string{"\"", "'", "`"}[(s.Salt>>43)%3]
-	return q + "s" + saltWord(s.Salt) + " " + strconv.Itoa(k) + q
+	return q + "s" + saltWord(s.salt()) + " " + strconv.Itoa(k) + q
 }
 
 func (s Spellings) spelling(k int) string {
@@ -378,30 +394,34 @@ func oracleAgain(c Again, o *h.Obs) *h.Fail {
 	} else {
 		o.Class("probe_rejected")
 	}
-	again := func(clause, when string) *h.Fail {
+	again := func(clause string, when func() string) *h.Fail {
 		r := parseBounded(c.Probe)
 		if r.hung || r.panic != nil {
-			return h.Failf("C15|same-text|"+clause+"|panic-or-hang", "the text parsed cleanly at first; parsed again %s it panics/hangs: %v\ntext: %q", when, r.panic, c.Probe)
+			return h.Failf("C15|same-text|"+clause+"|panic-or-hang", "the text parsed cleanly at first; parsed again %s it panics/hangs: %v\ntext: %q", when(), r.panic, c.Probe)
 		}
 		if got := renderParse(r); got != first {
 			kind := "tree"
 			if r.err != nil || r0.err != nil {
 				kind = "error"
 			}
-			return h.Failf("C15|same-text|"+clause+"|"+kind, "the same text, parsed again %s, gives another result\ntext: %q\nfirst parse: %s\nthis parse:  %s", when, c.Probe, first, got)
+			return h.Failf("C15|same-text|"+clause+"|"+kind, "the same text, parsed again %s, gives another result\ntext: %q\nfirst parse: %s\nthis parse:  %s", when(), c.Probe, first, got)
 		}
 		return nil
 	}
 	for i := 0; i < backToBack; i++ {
-		if f := again("at-once", "at once"); f != nil {
+		if f := again("at-once", func() string { return "at once" }); f != nil {
 			return f
 		}
 	}
 	total := 0
 	names := 0
 	var firstOther, firstOtherDump string
+	run := againRuns
+	againRuns++
 	for i, s := range c.Others {
-		for _, txt := range s.texts() {
+		s.run = run
+		txts := s.texts()
+		for _, txt := range txts {
 			r := parseBounded(txt)
 			if r.hung {
 				return h.Failf("C15|hang", "ParseSrc did not return within 20 s for input %q", txt)
@@ -424,7 +444,9 @@ func oracleAgain(c Again, o *h.Obs) *h.Fail {
 		}
 		o.Class("other_" + s.Kind)
 		o.Class("other_shape_" + s.Shape)
-		if f := again("after-other-texts", fmt.Sprintf("after %d other text(s) with %d spellings new to the process (%d description(s): %s)", len(s.texts()), total, i+1, strings.Join(js[:i+1], ", "))); f != nil {
+		if f := again("after-other-texts", func() string {
+			return fmt.Sprintf("after other texts with %d spellings new to the process (%d group(s), the last one in %d text(s): %s)", total, i+1, len(txts), strings.Join(js[:i+1], ", "))
+		}); f != nil {
 			return f
 		}
 	}
@@ -546,6 +568,16 @@ func oracleLiterals(c LitBatch, o *h.Obs) *h.Fail {
 			return nil
 		}
 		solo[i] = dump.Dump(r.stmt, dump.Opts{Positions: true})
+	}
+	// once more alone, one after the other: a difference here is memory between calls, whoever calls
+	for i, s := range srcs {
+		r := parseBounded(s)
+		if r.hung || r.panic != nil {
+			return h.Failf("C15|concurrent-literals|panic-or-hang", "ParseSrc panicked or hung: %v\ninput: %q", r.panic, s)
+		}
+		if got := renderParse(r); got != solo[i] {
+			return h.Failf("C15|same-text|after-other-texts|tree", "%d texts of %d distinct literals each are parsed one after the other, twice (one goroutine); a text gives another tree the second time\n%s\ninput: %q", c.G, c.Per, strings.Replace(firstDifference(solo[i], got), "concurrent: ", "again:      ", 1), trunc(s, 1500))
+		}
 	}
 	type diff struct {
 		text       int
